@@ -7,7 +7,9 @@ from .. import vlib
 from ..vlib import Inconclusive
 
 ALL_DEV = ["R13"]
-RULE = ("every delivery of the 58-byte stream Twrite(payload) Tclunk Tgetattr with at most 2 (thorough: 3) cut points, for the full "
+RULE = ("every delivery of the 87-byte stream <unknown-type frame> Twrite Tgetattr with at most 2 cut points (the rejected frame's body "
+        "is discarded across reads; the frames after it are served), and "
+        "every delivery of the 58-byte stream Twrite(payload) Tclunk Tgetattr with at most 2 (thorough: 3) cut points, for the full "
         "stream and for streams ending one byte early, at frame boundaries, inside a body and inside a header; generic path: an "
         "io.Reader returning exactly the chunks, end of stream reported alone or together with the last data; linux path: a real "
         "AF_UNIX stream socket pair written chunk by chunk, each drained by the receiver before the next (FIONREAD); compared: which "
@@ -24,16 +26,25 @@ def run(tier, seed):
     with vlib.Scratch(prop) as s:
         out = os.path.join(s, "vec.ndjson")
 
-        def cfg(fx, cuts):
-            return "\n".join(["SPECIFICATION Spec", "CONSTANTS", "  Frames <- MCFrames", "  ChunkSets <- MCChunkSets", "  MaxCuts = %d" % cuts,
-                              "  Lens = {58, 57, 39, 28, 20, 3}", "  Fixed = {%s}" % ", ".join('"%s"' % f for f in fx),
+        def cfg(fx, cuts, stream="A"):
+            return "\n".join(["SPECIFICATION Spec", "CONSTANTS", "  Frames <- %s" % ("MCFrames" if stream == "A" else "MCFramesB"),
+                              "  ChunkSets <- MCChunkSets", "  MaxCuts = %d" % cuts, '  Stream = "%s"' % stream,
+                              "  Lens = %s" % ("{58, 57, 39, 28, 20, 3}" if stream == "A" else "{87}"),
+                              "  Fixed = {%s}" % ", ".join('"%s"' % f for f in fx),
                               "CHECK_DEADLOCK FALSE", "INVARIANTS Independent Dump", ""])
         cuts = 2 if tier == "quick" else 3
-        r0 = vlib.run_tlc(s, "MC_Segments", cfg(ALL_DEV, cuts), name="ideal", timeout=2400)
-        if "violated" in r0:
-            raise Inconclusive("Segments.tla (ideal) violates " + r0["violated"])
-        r = vlib.run_tlc(s, "MC_Segments", cfg(fixed, cuts).replace("INVARIANTS Independent Dump", "INVARIANTS Dump"), workers=1,
-                         env={"GEN_OUT": out}, name="gen", timeout=2400)
+        r0 = {"distinct": 0, "generated": 0}
+        r = None
+        for stream in ("A", "B"):
+            # stream B (a rejected frame whose body is discarded, then two served ones): complete stream only, <= 2 cuts
+            c = cuts if stream == "A" else 2
+            ri = vlib.run_tlc(s, "MC_Segments", cfg(ALL_DEV, c, stream), name="ideal-" + stream, timeout=2400)
+            if "violated" in ri:
+                raise Inconclusive("Segments.tla (ideal) violates " + ri["violated"])
+            r0["distinct"] += ri.get("distinct", 0)
+            r0["generated"] += ri.get("generated", 0)
+            r = vlib.run_tlc(s, "MC_Segments", cfg(fixed, c, stream).replace("INVARIANTS Independent Dump", "INVARIANTS Dump"), workers=1,
+                             env={"GEN_OUT": out}, name="gen-" + stream, timeout=2400)
         outs = []
 
         def args(i, k):
